@@ -5,3 +5,23 @@ pub use super::framed_read::verif_h::*;
 pub use super::framed_write::verif_h::*;
 #[allow(unused_imports)]
 pub use super::error::verif_h::*;
+
+use super::*;
+pub(crate) use super::framed_write::verif_h::Mock;
+
+/// A real `Codec` over the mock transport with shrunk write-buffer sizes.
+pub(crate) fn mk_codec<B: Buf>(mock: Mock) -> Codec<Mock, B> {
+    let mut c: Codec<Mock, B> = Codec::new(mock);
+    super::framed_write::verif_h::shrink(c.inner.get_mut());
+    c
+}
+pub(crate) fn codec_buffered<B>(c: &Codec<Mock, B>) -> &[u8] {
+    super::framed_write::verif_h::buffered(c.inner.get_ref())
+}
+pub(crate) fn codec_set_blocked<B>(c: &mut Codec<Mock, B>, blocked: bool) {
+    super::framed_write::verif_h::set_blocked(c.inner.get_mut(), blocked)
+}
+pub(crate) fn codec_mock<B>(c: &mut Codec<Mock, B>) -> &mut Mock {
+    c.inner.get_mut().get_mut()
+}
+pub(crate) use super::framed_write::verif_h::EXP;
